@@ -37,6 +37,7 @@ THEOREMS = [
     "Klong.C20.run_refines_spec",
     "Klong.C20.route_exactly_once",
     "Klong.C20.params_exactly_by_method",
+    "Klong.C20.projection_handler_served",
     "Klong.C20.failure_contained",
     "Klong.C20.unknown_path_no_handler",
     "Klong.C20.unknown_key_no_handler",
@@ -221,8 +222,55 @@ def gen_body(rng):
     return ["raise"]
 
 
+FIXED = ["<p>", "hello ", "a", "é ", "[", "x=1&"]
+
+
+def gen_proj(rng, real, opens=1):
+    """a projection: an underlying dyad/triad `p<id>` with some arguments fixed (strings) and `opens`
+    open slots, e.g. p17("<p>";"hello ";) — one open slot of a triad, fixed and open counts differ"""
+    arity = 3 if opens == 2 else rng.choice([2, 3, 3])
+    pos = sorted(rng.sample(range(arity), opens))
+    fixed = [None if j in pos else rng.choice(FIXED) for j in range(arity)]
+    return dict(id=real.fresh(), arity=arity, open=opens, fixed=fixed, body=gen_body(rng))
+
+
+def call_arity(d):
+    """what KGFnWrapper demands: the number of open slots of a projection, else the arity"""
+    return d.get("open") or d["arity"]
+
+
+def effective_body(d):
+    """the body as a function of the parameter dictionary (a projection's const text starts with its
+    fixed arguments)"""
+    if d.get("open") and d["body"][0] == "const":
+        return ["const", "".join(f for f in d["fixed"] if f is not None) + d["body"][1]]
+    return d["body"]
+
+
+def define_stmts(name, d):
+    """Klong statements binding `name` to the definition d"""
+    if d == "other":
+        return [f"{name}::5"]
+    if not d.get("open"):
+        return [f"{name}::{fn_source(d)}"]
+    i, body, fixed = d["id"], d["body"], d["fixed"]
+    vs = ["x", "y", "z"][:d["arity"]]
+    v = vs[fixed.index(None)]                       # the (first) open slot receives the parameters
+    if body[0] == "const":
+        res = ",".join([w for w, f in zip(vs, fixed) if f is not None] + [klong_str(body[1])])
+    elif body[0] == "echo":
+        res = f"{v}?" + klong_str(body[1])
+    elif body[0] == "count":
+        res = f"#{v}"
+    else:
+        res = "boom(0)"
+    under = "{%s;rec(%d;%s);slow(0);%s}" % (";".join(vs), i, v, res)
+    args = ";".join("" if f is None else klong_str(f) for f in fixed)
+    return [f"p{i}::{under}", f"{name}::p{i}({args})"]
+
+
 def fn_source(d):
-    """Klong source of a function definition d = {id, arity, body}"""
+    """Klong source of a plain function definition d = {id, arity, body}"""
     i, body = d["id"], d["body"]
     if body[0] == "const":
         res = klong_str(body[1])
@@ -288,10 +336,12 @@ def gen_web_scenario(rng, real, length, burst_p=0.12):
     env = []
     for s in SYMS:
         r = rng.random()
-        if r < 0.78:
+        if r < 0.76:
             env.append([s, dict(id=real.fresh(), arity=1, body=gen_body(rng))])
-        elif r < 0.92:
+        elif r < 0.88:
             env.append([s, dict(id=real.fresh(), arity=2, body=gen_body(rng))])
+        elif r < 0.93:
+            env.append([s, gen_proj(rng, real)])        # arity 2/3 at registration: the route is skipped
         else:
             env.append([s, "other"])
 
@@ -356,13 +406,21 @@ def gen_web_scenario(rng, real, length, burst_p=0.12):
         elif r < 0.97:
             s = rng.choice(SYMS)
             q = rng.random()
-            if q < 0.75:
+            if q < 0.5:
                 v = dict(id=real.fresh(), arity=1, body=gen_body(rng))
-            elif q < 0.9:
+            elif q < 0.76:
+                v = gen_proj(rng, real)                 # still a monad: one open slot of a dyad / triad
+            elif q < 0.83:
+                v = gen_proj(rng, real, opens=2)        # a dyad by projection: 400, body not run
+            elif q < 0.93:
                 v = dict(id=real.fresh(), arity=2, body=gen_body(rng))
             else:
                 v = "other"
             ops.append(["def", s, v])
+            if v != "other" and v.get("open") == 1 and allp and not closed:
+                # ask the routes right after a projection came in by redefinition
+                for m, p in rng.sample(sorted(allp), min(2, len(allp))):
+                    ops.append(["req", m, p, gen_params(rng)] + gen_other(rng))
         else:
             ops.append(["webc"])
             closed = True
@@ -411,9 +469,9 @@ class WebOracle:
         if kind == "sym":
             d = self.defs[sym]
             cur = d if d != "other" else orig       # re-resolved by name; a non-function leaves the original
-        if cur["arity"] != 1:
+        if call_arity(cur) != 1:
             return ("400", "Invalid request", [])
-        t = body_text(cur["body"], params)
+        t = body_text(effective_body(cur), params)
         if t is None:
             return ("400", "Invalid request", [[cur["id"], params]])
         return ("200", t, [[cur["id"], params]])
@@ -421,7 +479,8 @@ class WebOracle:
 
 def eval_json(v):
     """EVal on the wire"""
-    return v if isinstance(v, str) else dict(id=v["id"], arity=v["arity"], body=v["body"])
+    return v if isinstance(v, str) else dict(id=v["id"], arity=v["arity"], open=v.get("open", 0),
+                                             body=effective_body(v))
 
 
 def route_json(ref, defs):
@@ -471,7 +530,8 @@ def run_web_scenario(ctx, real, hl, drv, sc):
     defs0 = {s: v for s, v in sc["env"]}
     # ---- define the handlers and the route dictionaries in Klong
     for s, v in sc["env"]:
-        k(f"{s}::5" if v == "other" else f"{s}::{fn_source(v)}")
+        for st in define_stmts(s, v):
+            k(st)
     for m in ("get", "post"):
         k(f"{m}t:::{{}}")
         for p, ref in sc[m]:
@@ -620,9 +680,12 @@ def run_web_scenario(ctx, real, hl, drv, sc):
                             return
                 elif op[0] == "def":
                     _, s, v = op
-                    k(f"{s}::5" if v == "other" else f"{s}::{fn_source(v)}")
+                    for st in define_stmts(s, v):
+                        k(st)
                     oracle.define(s, v)
-                    ctx.bump("web:redefine:" + ("other" if v == "other" else f"arity{v['arity']}"))
+                    ctx.bump("web:redefine:" + ("other" if v == "other" else
+                                                f"projection:{v['arity'] - v['open']}fixed+{v['open']}open"
+                                                if v.get("open") else f"arity{v['arity']}"))
                     if drv:
                         r = drv.ask(f"def name={hx(s)} val={jhx(eval_json(v))}")
                         if r != "ok":
@@ -873,7 +936,7 @@ def gen_ws_scenario(rng, real, n):
     for _ in range(n):
         r = rng.random()
         if r < 0.12:
-            evs.append(["d", real.fresh()])
+            evs.append(["d", real.fresh()] + ([rng.randrange(3)] if rng.random() < 0.5 else []))
             continue
         if r < (0.55 if stamp else 0.22):
             t = rng.choice(pool)                            # the same text again and again
@@ -883,7 +946,8 @@ def gen_ws_scenario(rng, real, n):
             t = dump(rng, gen_json(rng, top=True))
         sent.append(t)
         evs.append(["m", t])
-    return dict(kind="ws-recv", handler=h0, stamp=stamp, evs=evs)
+    form0 = rng.randrange(3) if rng.random() < 0.4 else None
+    return dict(kind="ws-recv", handler=h0, form=form0, stamp=stamp, evs=evs)
 
 
 def containers(v):
@@ -921,13 +985,44 @@ def run_ws_recv(ctx, real, hl, drv, sc):
     case = dict(kind="ws-recv", handler=sc["handler"], stamp=stamp, evs=[])
     sync = 0
 
-    def hsrc(i):
-        return ("{wsrec(%d;x;y);:[isdict(y);wsfile(y);1]}" if stamp else "{wsrec(%d;x;y)}") % i
+    tags = []
+    proj_ids = set()
+
+    def wstag(x, y):
+        tags.append([int(x), str(y)])
+        return 0
+    k["wstag"] = wstag
+
+    def predefine(i, form):
+        """the triad behind a projection-valued handler. Defined before the connection exists: a NEW global
+        defined while the klong loop is still inside a handler would land in the scope pushed for that
+        handler (the interpreter is not thread-safe); re-binding the existing .ws.m is safe"""
+        if form is None:
+            return
+        vs = ["x", "y", "z"]
+        f = vs[form]
+        c, m = [v for v in vs if v != f]
+        tail = f";:[isdict({m});wsfile({m});1]" if stamp else ""
+        k(f"wsp{i}::{{x;y;z;wstag({i};{f});wsrec({i};{c};{m}){tail}}}")
+
+    def set_handler(i, form):
+        """form None: a dyad lambda; form j: a projection of a triad with argument j fixed to a string and
+        two open slots (connection; message) — e.g. .ws.m::on("feed";;)"""
+        if form is None:
+            k(".ws.m::" + (("{wsrec(%d;x;y);:[isdict(y);wsfile(y);1]}" if stamp else "{wsrec(%d;x;y)}") % i))
+            return
+        k(f".ws.m::wsp{i}(" + ";".join(klong_str(f"feed{i}") if j == form else "" for j in range(3)) + ")")
+        proj_ids.add(i)
     try:
         k("wsseq::0")
         k("wsinbox::[]")
         k('wsfile::{wsseq::wsseq+1;x,"seq",,wsseq;wsinbox::wsinbox,,x;1}')
-        k(".ws.m::" + hsrc(sc["handler"]))
+        predefine(sc["handler"], sc.get("form"))
+        for ev in sc["evs"]:
+            if ev[0] == "d":
+                predefine(ev[1], ev[2] if len(ev) > 2 else None)
+        set_handler(sc["handler"], sc.get("form"))
+        case["form"] = sc.get("form")
         nc = k(f'wsc::.ws("ws://127.0.0.1:{srv.port}")')
         if not srv.connected.wait(WAIT):
             raise Unreachable("websocket client did not connect")
@@ -958,9 +1053,9 @@ def run_ws_recv(ctx, real, hl, drv, sc):
             else:
                 flush()
                 cur = ev[1]
-                k(".ws.m::" + hsrc(cur))
-                model_evs.append(ev)
-                ctx.bump("ws:recv:redefine")
+                set_handler(cur, ev[2] if len(ev) > 2 else None)
+                model_evs.append(ev[:2])
+                ctx.bump("ws:recv:redefine" + (":projection" if len(ev) > 2 else ""))
         flush()
         entries = real.wslog[n0:]
         got = [[i, snap] for i, _, _, snap in entries]          # snapshots taken at hand-over
@@ -1011,6 +1106,11 @@ def run_ws_recv(ctx, real, hl, drv, sc):
                     key = "ws:recv:order"
                 ctx.oracle_fail(key, case, expected, got,
                                 ".ws.m must be called once per arriving message, in arrival order, with its decoding")
+        want_tags = [[i, f"feed{i}"] for i, _ in got if i in proj_ids]
+        if tags != want_tags and len(got) == len(expected):
+            ctx.oracle_fail("ws:recv:projection-fixed-argument", case, want_tags, tags,
+                            ".ws.m bound to a projection: the fixed argument stays what it was, the two open slots "
+                            "receive the connection and the message")
         if not conn_ok:
             ctx.oracle_fail("ws:recv:connection-argument", case, "x is the connection", "x is something else")
         if drv:
